@@ -199,6 +199,8 @@ namespace
     return i < s.args.size () ? atoi (s.args[i].c_str ()) : -1;
   }
 
+  zw_vocabulary *g_prebuilt_voc = nullptr;
+
   zw_vocabulary *
   make_voc ()
   {
@@ -678,9 +680,24 @@ namespace
   }
 
   void
+  on_abort (int)
+  {
+    // assert() / abort(): pass on what was written to stderr just before.
+    signal (SIGABRT, SIG_DFL);
+    flush_out ();
+    std::string se = capture_stderr_take ();
+    if (se.size () > 2000)
+      se = se.substr (se.size () - 2000);
+    std::string line = "\nviol abort " + hexenc (se) + "\n";
+    ssize_t r = write (g_out, line.data (), line.size ());
+    (void) r;
+    _exit (83);
+  }
+
+  void
   on_alarm (int)
   {
-    static char const msg[] = "viol hang -\n";
+    static char const msg[] = "\nviol hang -\n";
     ssize_t r = write (g_out, msg, sizeof msg - 1);
     (void) r;
     _exit (81);
@@ -703,6 +720,22 @@ contract_count (char const *api, bool failed)
 }
 
 void
+prebuild_vocabulary ()
+{
+  // Runs in the pristine worker: building a vocabulary compiles nothing.
+  zw_error *err = nullptr;
+  zw_vocabulary *voc = zw_vocabulary_init (&err);
+  if (voc == nullptr
+      || ! zw_vocabulary_add (voc, zw_vocabulary_core (&err), &err)
+      || ! zw_vocabulary_add (voc, zw_vocabulary_dwarf (&err), &err))
+    {
+      fprintf (stderr, "zsim: cannot build the vocabulary\n");
+      exit (2);
+    }
+  g_prebuilt_voc = voc;
+}
+
+void
 apply_environment (plan const &p)
 {
   fs_reset ();
@@ -712,6 +745,7 @@ apply_environment (plan const &p)
   fs_set_deny_mmap (p.knob ("deny_mmap", 0) != 0);
   hooks_set_poison ((int) p.knob ("poison", 85));
   hooks_set_cache_drop (p.knob ("cache_period", 0), p.knob ("cache_offset", 0));
+  hooks_set_scon_fatal (p.knob ("scon_fatal", 1) != 0);
 }
 
 [[noreturn]] void
@@ -721,6 +755,7 @@ child_run_plan (plan const &p, int out_fd)
   hooks_set_fail_sink (out_fd);
 
   signal (SIGALRM, on_alarm);
+  signal (SIGABRT, on_abort);
   alarm ((unsigned) p.knob ("watchdog_s", 10));
 
 #if ZSIM_ASAN
@@ -735,7 +770,8 @@ child_run_plan (plan const &p, int out_fd)
 
   {
     state st (p);
-    st.voc = make_voc ();
+    bool fresh_voc = p.knob ("fresh_voc", 0) != 0 || g_prebuilt_voc == nullptr;
+    st.voc = fresh_voc ? make_voc () : g_prebuilt_voc;
 
     for (size_t i = 0; i < p.steps.size (); ++i)
       run_step (st, (int) i, p.steps[i]);
@@ -756,7 +792,8 @@ child_run_plan (plan const &p, int out_fd)
     for (auto &v: st.V)
       zw_value_destroy (v.second);
     st.V.clear ();
-    zw_vocabulary_destroy (st.voc);
+    if (fresh_voc)
+      zw_vocabulary_destroy (st.voc);
   }
 
   std::string se = capture_stderr_take ();
